@@ -292,7 +292,7 @@ func VerifDataURI() {
 		return
 	}
 	vAssert(err == nil, "data-uri-rejected")
-	want := DecodeURL(append([]byte(nil), orig[comma+1:]...))
+	want := refPercentDecode(orig[comma+1:])
 	vAssert(string(data) == string(want), "data-uri-payload")
 	if comma == 5 {
 		vAssert(string(mt) == "text/plain", "data-uri-default-mediatype")
@@ -331,4 +331,96 @@ func VerifMediatypeParams() {
 		vAssert(ok && v == vals[i], "mediatype-parameter-lost")
 	}
 	vReach("params")
+}
+
+const vnB64 = "ABCDEFGHIJKLMNOPQRSTUVWXYZabcdefghijklmnopqrstuvwxyz0123456789+/"
+
+// vnBase64: standard base64 with padding, written out from RFC 4648 (not the library's decoder)
+func vnBase64(p []byte) []byte {
+	var out []byte
+	for i := 0; i < len(p); i += 3 {
+		var b0, b1, b2 byte
+		b0 = p[i]
+		if i+1 < len(p) {
+			b1 = p[i+1]
+		}
+		if i+2 < len(p) {
+			b2 = p[i+2]
+		}
+		out = append(out, vnB64[b0>>2], vnB64[(b0&3)<<4|b1>>4])
+		if i+1 < len(p) {
+			out = append(out, vnB64[(b1&15)<<2|b2>>6])
+		} else {
+			out = append(out, '=')
+		}
+		if i+2 < len(p) {
+			out = append(out, vnB64[b2&63])
+		} else {
+			out = append(out, '=')
+		}
+	}
+	return out
+}
+
+// VerifDataURIRoundTrip: a data: URI obtained by base64- or percent-encoding arbitrary payload
+// bytes gives back exactly the payload and the media type (text/plain when absent).
+func VerifDataURIRoundTrip() {
+	n := vRange("n", 0, vParam("N", 3))
+	p := vBytes("p", n)
+	payload := append([]byte(nil), p...)
+	mts := []string{"", "text/html", "image/png;charset=x", ";charset=y"}
+	mi := vRange("mt", 0, len(mts)-1)
+	src := append([]byte("data:"), mts[mi]...)
+	switch vRange("enc", 0, 2) {
+	case 0: // base64
+		src = append(src, ";base64,"...)
+		src = append(src, vnBase64(p)...)
+	case 1: // every byte percent-encoded
+		src = append(src, ',')
+		const hex = "0123456789ABCDEF"
+		for _, c := range p {
+			src = append(src, '%', hex[c>>4], hex[c&15])
+		}
+	case 2: // the library's own URL encoder with the data-URI table
+		src = append(src, ',')
+		src = append(src, EncodeURL(append([]byte(nil), p...), DataURIEncodingTable)...)
+	}
+	mt, data, err := DataURI(src)
+	vAssert(err == nil, "well-formed-data-uri-rejected")
+	if err != nil {
+		return
+	}
+	vAssert(string(data) == string(payload), "data-uri-payload-differs")
+	switch mi {
+	case 0, 3:
+		vAssert(string(mt) == "text/plain", "data-uri-default-mediatype")
+	default:
+		vAssert(string(mt) == mts[mi], "data-uri-mediatype")
+	}
+	vReach("roundtrip")
+}
+
+// refPercentDecode: RFC 3986 percent-decoding ("%HH" -> byte, everything else literal, '+' too)
+func refPercentDecode(b []byte) []byte {
+	hexv := func(c byte) int {
+		switch {
+		case c >= '0' && c <= '9':
+			return int(c - '0')
+		case c >= 'a' && c <= 'f':
+			return int(c-'a') + 10
+		case c >= 'A' && c <= 'F':
+			return int(c-'A') + 10
+		}
+		return -1
+	}
+	var out []byte
+	for i := 0; i < len(b); i++ {
+		if b[i] == '%' && i+2 < len(b) && hexv(b[i+1]) >= 0 && hexv(b[i+2]) >= 0 {
+			out = append(out, byte(hexv(b[i+1])<<4|hexv(b[i+2])))
+			i += 2
+			continue
+		}
+		out = append(out, b[i])
+	}
+	return out
 }
